@@ -642,7 +642,7 @@ func TestParams(t *testing.T) {
 // TestProcess: payload = entry content templated with exactly the supplied variables
 
 type Piece struct {
-	Kind string // text | var | include
+	Kind string // text | var | include | override (Val = "<var>|<prefix>|<util. or empty>": the documented util.PrefixedOverride and its top-level alias)
 	Val  string
 }
 
@@ -668,6 +668,9 @@ func renderSrc(ps []Piece) string {
 			b.WriteString("{{ " + p.Val + " }}")
 		case "include":
 			b.WriteString(`{% include "` + p.Val + `" %}`)
+		case "override":
+			f := strings.Split(p.Val, "|")
+			b.WriteString(`{{ ` + f[2] + `PrefixedOverride("` + f[0] + `", "` + f[1] + `") }}`)
 		}
 	}
 	return b.String()
@@ -686,6 +689,15 @@ func refRender(entries map[string][]Piece, name string, vars map[string]string, 
 			b.WriteString(p.Val)
 		case "var":
 			b.WriteString(vars[p.Val])
+		case "override":
+			// handbook: the value of <prefix>_<var> if that exists, otherwise the value of <var>, otherwise ""
+			// (prefixed values are generated non-empty and never "none", where handbook and code could be read differently)
+			f := strings.Split(p.Val, "|")
+			if v, ok := vars[f[1]+"_"+f[0]]; ok {
+				b.WriteString(v)
+			} else if v := vars[f[0]]; strings.TrimSpace(v) != "" && v != "none" {
+				b.WriteString(v)
+			}
 		case "include":
 			s, ok := refRender(entries, p.Val, vars, depth+1)
 			if !ok {
@@ -742,14 +754,31 @@ func runProcess(c ProcessCase) (res vh.Result) {
 		res.Signature = "process:resolve"
 		return
 	}
-	hasInclude, hasVar := false, false
-	for _, p := range src[c.Query] {
-		if p.Kind == "include" {
-			hasInclude = true
+	hasInclude, hasVar, hasOverride := false, false, false
+	var scan func(name string, depth int)
+	scan = func(name string, depth int) {
+		if depth > 6 {
+			return
 		}
-		if p.Kind == "var" {
-			hasVar = true
+		for _, p := range src[name] {
+			switch p.Kind {
+			case "include":
+				if depth == 0 {
+					hasInclude = true
+				}
+				scan(p.Val, depth+1)
+			case "var":
+				if depth == 0 {
+					hasVar = true
+				}
+			case "override":
+				hasVar, hasOverride = true, true
+			}
 		}
+	}
+	scan(c.Query, 0)
+	if hasOverride {
+		res.Classes = append(res.Classes, "var-aware-function")
 	}
 	if hasInclude {
 		res.Classes = append(res.Classes, "include")
@@ -788,7 +817,9 @@ func genPieces(t *rapid.T, names []string, varNames []string, self string, allow
 	n := rapid.IntRange(1, 5).Draw(t, "npieces")
 	var ps []Piece
 	for i := 0; i < n; i++ {
-		switch rapid.SampledFrom([]string{"text", "var", "var", "include"}).Draw(t, "pk") {
+		switch rapid.SampledFrom([]string{"text", "var", "var", "include", "override"}).Draw(t, "pk") {
+		case "override":
+			ps = append(ps, Piece{"override", rapid.SampledFrom(varNames).Draw(t, "ovn") + "|" + rapid.SampledFrom([]string{"p", "q"}).Draw(t, "opfx") + "|" + rapid.SampledFrom([]string{"util.", ""}).Draw(t, "ons")})
 		case "text":
 			ps = append(ps, Piece{"text", rapid.StringMatching(`[a-zA-Z0-9 :,_=\[\]-]{1,10}`).Draw(t, "txt")})
 		case "var":
@@ -838,6 +869,15 @@ func genProcess(t *rapid.T) ProcessCase {
 			case 0: // absent
 			default:
 				vars[vn] = rapid.StringMatching(`[a-zA-Z0-9_,.-]{0,6}`).Draw(t, "val")
+			}
+			for _, pfx := range []string{"p", "q"} {
+				if rapid.IntRange(0, 3).Draw(t, "prefixed") == 0 {
+					v := rapid.StringMatching(`[a-z0-9]{1,5}`).Draw(t, "pval")
+					if v == "none" {
+						v = "nonx"
+					}
+					vars[pfx+"_"+vn] = v
+				}
 			}
 		}
 		c.Vars = append(c.Vars, vars)
